@@ -283,6 +283,10 @@ func (g *gen) durText() (string, string) {
 	case 7:
 		return g.numText() + g.pick(durUnits), "q-big"
 	case 8:
+		if g.chance(50) { // a day part, alone or in front of a well-formed remainder
+			rest, _ := g.durTextSimple()
+			return g.pick([]string{"", "-", "+"}) + g.pick([]string{strconv.Itoa(g.intn(400)), "106751", "106752", "213504", g.numText()}) + "d" + g.pick([]string{"", rest, "-" + rest, "12h", "30m"}), "q-day-unit"
+		}
 		return g.pick([]string{"1", "10", "0", "00", "1.5", "-1", "+0", "-0"}) + g.pick([]string{"", " ", "d", "S", "sec", "w", "y", "n", "u"}), "q-bad-unit"
 	case 9:
 		d, _ := g.durTextSimple()
@@ -299,6 +303,8 @@ func fixedDurInner() []string {
 	return []string{"", "0", "+0", "-0", "00", "0s", "1ns", "1us", "1µs", "1μs", "1ms", "1s", "1m", "1h", "-1h", "+1h", "1h30m", "1.5h", "90m", "1h1h", "1m1h", "1d", "1", "100", "1 s", " 1s", "1s ", "1S",
 		"9223372036854775807ns", "9223372036854775808ns", "-9223372036854775808ns", "-9223372036854775809ns", "2562047h47m16.854775807s", "2562047h47m16.854775808s", "-2562047h47m16.854775808s", "-2562047h47m16.854775809s",
 		"2562047h", "2562048h", "1000000h", "3000000h", "9223372036s", "9223372037s", "153722867m", "153722868m", "9223372036854ms", "9223372036855ms", "9223372036854775us", "9223372036854776us",
+		"1d", "7d", "0d", "-1d", "+1d", "1d12h", "-1d12h", "-2d30m", "1d-12h", "12h1d", "1d1d", "1.5d", "d", "-d", "1dd", "1d 1h", "106751d", "106752d", "-106752d", "213504d", "9223372036854775807d", "9223372036854775808d",
+		"1w", "1y", "1mo", "1day", "1D", "1h30", "30m1", "1h30m15", "1m30s500", "1h,30m", "1h 30m", "1hr", "1min", "1sec", "PT1H", "01:30:00", "1:30",
 		"0.5ns", "1.9ns", "0.0000000000001h", "1e3s", "0x1s", "1_0s", "s", "h", "-", "+", "--1s", "1.5", ".5", "1h-1m", "1h+1m", "١s", "1µs", "1μs", "1µ", "µs"}
 }
 
@@ -674,7 +680,95 @@ func (g *gen) all() []input {
 	}
 	g.histories()
 	g.parallels()
+	g.zones()
 	return g.out
+}
+
+// zone classes: the time-carrying round trips under several process zones (time.Local), swept across DST transitions.
+// The model is zone-free (stamp -> instant -> stamp): the instant must survive whatever the zone of the process.
+var procZones = []string{"UTC", "America/New_York", "Europe/Berlin", "Australia/Lord_Howe", "Asia/Shanghai"}
+
+// the zone transitions (Unix seconds) of zone z within year y
+func transitionsIn(z string, y int) []int64 {
+	loc, err := time.LoadLocation(z)
+	if err != nil {
+		panic(err)
+	}
+	var out []int64
+	t := time.Date(y, 1, 1, 0, 0, 0, 0, time.UTC).In(loc)
+	end := time.Date(y+1, 1, 1, 0, 0, 0, 0, time.UTC)
+	for {
+		_, e := t.ZoneBounds()
+		if e.IsZero() || !e.Before(end) {
+			return out
+		}
+		out = append(out, e.Unix())
+		t = e
+	}
+}
+
+func (g *gen) zones() {
+	valueIn := func(z, k, class string, v val) {
+		j, o := toJV(v), toJV(sentI)
+		if k == "KUnix2Time" || k == "KNano2Time" {
+			o = toJV(val{K: 't', S: 7777, N: 7})
+		}
+		g.out = append(g.out, input{Op: "value", T: k, V: &j, Old: &o, Class: class, Zone: z})
+	}
+	stampVal := func(k string, sec int64) val {
+		if k == "KUnix2Time" {
+			return val{K: 't', S: sec, N: 0}
+		}
+		if k == "KNano2Time" {
+			return vt(time.Unix(sec, 0))
+		}
+		return vz(sec)
+	}
+	usual := []int64{0, 1, -1, 86399, 86400, yearOne, 1700000000, math.MaxInt32, math.MaxInt32 + 1, 253402300799, math.MaxInt64, math.MinInt64}
+	kinds := []string{"KStamp", "KSqlTime2Unix", "KUnix2Time", "KNano2Time"}
+	for _, z := range procZones {
+		// the usual boundaries under this zone
+		for _, sec := range usual {
+			for _, k := range kinds {
+				if k == "KNano2Time" && (sec > 9223372036 || sec < -9223372036) {
+					continue
+				}
+				valueIn(z, k, "zone-boundary", stampVal(k, sec))
+			}
+			a := sqlArg{Ty: "time", Unix: sec, Nsec: 0}
+			o := toJV(sentI)
+			g.out = append(g.out, input{Op: "scan", T: "KStamp", Old: &o, Arg: &a, Class: "zone-boundary", Zone: z})
+		}
+		years := []int{2021, 2024, 1970 + g.intn(68)}
+		if g.e.Thorough || g.e.Search {
+			years = append(years, 1986, 1991, 2007, 2011, 2019, 2025, 2030, 2037)
+		}
+		for _, y := range years {
+			for _, tr := range transitionsIn(z, y) {
+				// every second stamp kind, one by one, right at the fold / gap
+				for _, d := range []int64{-3600, -3599, -1800, -600, -1, 0, 1, 600, 1800, 3599, 3600} {
+					valueIn(z, "KStamp", "zone-transition", vz(tr+d))
+					valueIn(z, "KSqlTime2Unix", "zone-transition", vz(tr+d))
+				}
+				// sweep every 10 minutes over +-3 h, as one history per kind (results kept, read at the end)
+				for _, k := range kinds {
+					var steps []hstep
+					for d := int64(-10800); d <= 10800; d += 600 {
+						steps = append(steps, hstep{E: "Value", V: toJV(stampVal(k, tr+d+int64(g.intn(600)))), Keep: true})
+					}
+					g.out = append(g.out, input{Op: "hist", T: k, Hist: steps, Class: "zone-sweep", Zone: z})
+				}
+				// the JSON time wrappers across the same transition
+				for _, t := range []string{"JUnixTime", "JNanoTime"} {
+					var steps []hstep
+					for d := int64(-7200); d <= 7200; d += 1200 {
+						steps = append(steps, hstep{E: g.pick(jsonEntries), V: toJV(val{K: 't', S: tr + d, N: int64(g.intn(1000000000))}), Keep: true})
+					}
+					g.out = append(g.out, input{Op: "hist", T: t, Hist: steps, Class: "zone-sweep", Zone: z})
+				}
+			}
+		}
+	}
 }
 
 // pure functions in parallel: 8 goroutines, each with its own few inputs (texts distinct between goroutines), tight loops;
